@@ -97,6 +97,7 @@ EXPECTED_PROBES = [
     "probe.q_redelivery_event_skipped_after_poll", "probe.q_redelivered_to_other_consumer",
     "probe.q_limit_exhausted_by_timeout", "probe.q_unsub_with_delivery_in_transit",
     "probe.q_request_after_skipped_timer", "probe.q_request_refused_timer_outstanding",
+    "probe.q_request_later_than_redelivery_delay",
     "probe.t_positive_latency_received", "probe.t_unsubscribed_during_fanout",
     "probe.t_active_set_changed", "probe.t_resubscribed", "probe.l_rebalance_multi", "probe.l_retention_expired",
     "probe.l_commit_smaller", "probe.l_churn_during_poll", "probe.l_bounce_inside_rebalance_delay",
@@ -121,7 +122,8 @@ def gen_queue(rng):
     mode = rng.choice(["clean", "timeouts", "timeouts", "timeouts", "guarded"])
     nc = rng.randint(1, 4)
     horizon = rng.choice([0.1, 0.3])
-    ack_timeout = rng.choice([0.004, 0.01, 0.02])
+    rdel = rng.choice([0.001, 0.003, 0.02, 0.1])
+    ack_timeout = rng.choice([0.004, 0.01, 0.02, round(max(0.001, rdel * 0.5), 6), rdel, round(rdel * 3, 6)])
     msgs = []
     for t in _times(rng, rng.randint(1, 40), horizon):
         beh = []
@@ -155,7 +157,7 @@ def gen_queue(rng):
     return {
         "klass": "queue", "mode": mode, "seed": rng.getrandbits(48),
         "latency": rng.choice([0.0, 0.001, 0.003, 0.01, 0.02]),
-        "redelivery_delay": rng.choice([0.001, 0.003, 0.02, 0.1]),
+        "redelivery_delay": rdel,
         "max_redeliveries": rng.choice([0, 1, 2, 3, 5]) if mode != "guarded" else rng.choice([12, 16]),
         "dlq": rng.random() < 0.7, "capacity": rng.choice([None, None, None, 3, 10]), "n_consumers": nc,
         "poll_mode": rng.choice(["event", "event", "call"]), "poll_every": rng.choice([0.002, 0.005, 0.01]),
@@ -432,6 +434,7 @@ class QueueWorld:
         self.expect = []         # delivery expectations
         self.open = []
         self.last_consumer = {}
+        self.accepted = []       # accepted redelivery requests whose timer has not fired yet
         self.outstanding = collections.Counter()   # message id -> redelivery timers returned by the queue, not yet fired
         self.skipped_timer = set()                 # message ids whose redelivery timer fired after a poll had taken them
         self.req_count = {}      # message id -> attempts counted when the last redelivery was requested
@@ -542,9 +545,20 @@ class QueueWorld:
                 if self.dlq is None:
                     self.discarded[idx] = "limit"
         if ev is not None:
+            now = self.watchdog.now.nanoseconds
+            if ev.time.nanoseconds < now:
+                self._viol("requested-redelivery-delivers", "redelivery-timer-stamped-before-the-request-instant",
+                           f"schedule_redelivery(message #{idx}) at {now}ns returned a timer for {ev.time.nanoseconds}ns "
+                           f"(redelivery_delay {self.sc.get('redelivery_delay')}s, last hand-out "
+                           f"{msg.last_delivered_at.nanoseconds if msg is not None and msg.last_delivered_at else None}ns): it lies "
+                           f"in the past, the engine drops it and the queue keeps the message marked as scheduled for ever")
+            if now - (msg.last_delivered_at.nanoseconds if msg is not None and msg.last_delivered_at else now) \
+                    >= int(_num(self.sc.get("redelivery_delay", 0.02)) * 1e9):
+                self.pr["request_later_than_redelivery_delay"] += 1
             self.pr["redelivery_requested"] += 1
             self.req_count[mid] = cnt
             self.outstanding[mid] += 1
+            self.accepted.append({"mid": mid, "idx": idx, "cnt": cnt, "due": ev.time.nanoseconds, "fired": False})
             if mid in self.skipped_timer:
                 self.pr["request_after_skipped_timer"] += 1
             return [ev]
@@ -575,6 +589,26 @@ class QueueWorld:
         is_redelivery = first and ev.event_type == "message_redelivery" and ev.target is self.q
         if is_redelivery:
             self.outstanding[ev.context.get("message_id")] -= 1
+            for a in self.accepted:
+                if a["mid"] == ev.context.get("message_id") and not a["fired"] and a["due"] <= now:
+                    a["fired"] = True
+                    break
+        if self.accepted:
+            # bounded liveness of an accepted redelivery request: its timer fires (the engine passes its instant)
+            still = []
+            for a in self.accepted:
+                if a["fired"]:
+                    continue
+                if a["due"] + US < now:
+                    i = a["idx"]
+                    if self.q.get_message(a["mid"]) is not None and i not in self.acked and self.cnt.get(i, 0) <= a["cnt"]:
+                        self._viol("requested-redelivery-delivers", "accepted-redelivery-request-never-fired",
+                                   f"the redelivery of message #{i} accepted for {a['due']}ns did not happen by {now}ns: no "
+                                   f"hand-out, no dead-lettering, message still unacknowledged")
+                    self.outstanding[a["mid"]] -= 1
+                    continue
+                still.append(a)
+            self.accepted = still
         top = _stale_top(self.sim, now, "message_delivery")
         if top is not None:
             self.stale.add((top.context["payload"].context["metadata"]["i"], top.target.name))
@@ -773,6 +807,7 @@ def run_queue(sc):
         "probe.q_limit_exhausted_by_timeout": int(pr["limit_exhausted_by_timeout"] > 0),
         "probe.q_unsub_with_delivery_in_transit": int(pr["unsub_with_delivery_in_transit"] > 0),
         "probe.q_request_after_skipped_timer": int(pr["request_after_skipped_timer"] > 0),
+        "probe.q_request_later_than_redelivery_delay": int(pr["request_later_than_redelivery_delay"] > 0),
         "probe.q_request_refused_timer_outstanding": int(pr["request_refused_timer_outstanding"] > 0),
         "q_deliveries_counted": len(qw.expect), "q_receipts": qw.receipts, "q_publish_refused": qw.refused,
         "q_redelivery_requests": pr["redelivery_requested"], "budget_runs": int(status == "budget"),
